@@ -84,6 +84,19 @@ class Gen:
             params = [rng.choice([1, 3, 10, 255]) for _ in range(np_)]
             w = cw + " " + ty + ("(" + ", ".join(map(str, params)) + ")" if params else "")
             t = {"name": cr, "type": type_tree(ty, params)}
+            # attributes written inside the type: CHARACTER SET is flattened into the column, COLLATE is a column
+            # entry, UNSIGNED stays in the type — each next to whatever options the column has
+            if ty in ("varchar", "char", "text", "nvarchar", "nchar") and rng.random() < 0.3:
+                cs = rng.choice(["utf8", "latin1", "utf8mb4"])
+                w += " CHARACTER SET " + cs
+                t["character_set"] = cs
+                if rng.random() < 0.4:
+                    co = rng.choice(["utf8_bin", "latin1_bin"])
+                    w += " COLLATE " + co
+                    t["collate"] = co
+            elif ty in ("int", "integer", "bigint", "smallint", "tinyint", "mediumint") and rng.random() < 0.25:
+                w += " UNSIGNED"
+                t["type"] = dict({"unsigned": True}, **t["type"])
             opts = rng.sample(["not null", "null", "default", "primary key", "unique", "check", "references", "comment", "auto_increment"],
                               rng.randint(0, 3))
             if "not null" in opts and "null" in opts:
